@@ -92,6 +92,31 @@ func main() {
 		}
 		return
 	}
+	if *id == "all" {
+		// dev / audit mode: one load, every check (used by tools/killmatrix.py); prints "ALL <id> rc=<n>" per property
+		worst := 0
+		for _, pid := range rules.IDs() {
+			chk := rules.Get(pid)
+			cx := report.New(p, pid, *tier, seed, verifDir)
+			cx.EvidenceDir = *evDir
+			cx.Explain, cx.NotDecided = chk.Explain, chk.NotDec
+			rc := func() (rc int) {
+				defer func() {
+					if r := recover(); r != nil {
+						fmt.Printf("ALL %s panic: %v\n", pid, r)
+						rc = 2
+					}
+				}()
+				chk.Run(cx)
+				return cx.Finish()
+			}()
+			fmt.Printf("ALL %s rc=%d\n", pid, rc)
+			if rc > worst {
+				worst = rc
+			}
+		}
+		os.Exit(worst)
+	}
 	ch := rules.Get(*id)
 	if ch == nil {
 		fmt.Fprintf(os.Stderr, "mwcheck: no check registered for %q (have %v)\n", *id, rules.IDs())
